@@ -40,7 +40,7 @@ def structure(loader):
     return out
 
 
-TASKS = [StructTask("fdwra-structure", structure)]
+TASKS = [StructTask("fdwra-structure", structure, textual=True)]
 
 META = dict(
     level="other",
